@@ -196,12 +196,13 @@ fn apply_op(o: &mut XObj, op: &XOp) {
 
 #[derive(Debug)]
 struct Spy {
+    name: &'static str,
     ask: Vec<(Id, u32)>,
     out: Arc<Mutex<Vec<(Id, u32, u32)>>>,
 }
 impl CustomSection for Spy {
     fn name(&self) -> &str {
-        "spy"
+        self.name
     }
     fn data(&self, ids: &IdsToIndices) -> Cow<'_, [u8]> {
         let mut o = self.out.lock().unwrap();
@@ -303,10 +304,10 @@ impl Subject for XSubject {
         if plain.is_err() {
             plain_ok = false;
         }
-        o.m.customs.add(Spy { ask: ask.clone(), out: out.clone() });
+        o.m.customs.add(Spy { name: "spy", ask: ask.clone(), out: out.clone() });
         // a second consumer: every custom section must see the same, complete map
         let out2 = Arc::new(Mutex::new(vec![]));
-        o.m.customs.add(Spy { ask: ask.clone(), out: out2.clone() });
+        o.m.customs.add(Spy { name: ["dylink.0", "linking", "target_features", "sourceMappingURL"][hist.len() % 4], ask: ask.clone(), out: out2.clone() });
         let bytes = match std::panic::catch_unwind(std::panic::AssertUnwindSafe(|| o.m.emit_wasm())) {
             Ok(b) => b,
             Err(p) => {
